@@ -36,6 +36,7 @@ Starts ==
     [] StartSet = "text2" -> {Arr(<<f1, sab>>), Obj(<< <<ka, Null>>, <<kb, u256>> >>), Obj(<< <<ka, u1>> >>)}
     [] OTHER -> RepL1 \cup AtomsSmall
                 \cup {Arr(<<u256, Null, f15>>), Arr(<<Arr(<<u1, sab>>), Obj(<< <<ka, Null>> >>)>>), Arr(<<sa, sab, sa>>),
+                      Obj(<< <<kEmpty, Null>> >>), Obj(<< <<kEmpty, sEmpty>>, <<ka, Null>> >>),
                       Obj(<< <<kB, u1>>, <<ka, Arr(<<sE, f15>>)>> >>), Obj(<< <<kE, Obj(<< <<kab, Null>>, <<kb, sQuote>> >>)>> >>),
                       Arr(<<Obj(<< <<ka, u1>>, <<kb, sab>> >>), Obj(<< <<ka, u2>>, <<kb, Null>> >>), Obj(<< <<ka, f15>> >>)>>),
                       Arr(<<u1, i1, f1, u1>>), Obj(<< <<ka, Obj(<< <<ka, Obj(<< <<ka, Null>>, <<kb, u1>> >>)>> >>)>> >>)}
